@@ -1,5 +1,8 @@
 """C17 bounded stand-in (floating point is outside the contract): the real function on a grid of (n, skew)."""
 import math
+import random
+import numpy as np
+from matchingproblems.generator import generator_shared
 from matchingproblems.generator.generator_shared import create_linear_distribution
 
 RULE = ('grid: n in 1..40 (quick) / 1..200 (thorough) x skews {1e-3..1e6, incl. 1, <1, large} + seeded random skews; '
@@ -14,13 +17,35 @@ def cases(rng, tier):
         for s in SKEWS: yield 'distribution', dict(n=n, skew=s)
     for _ in range(200 if tier == 'quick' else 5000):
         yield 'distribution', dict(n=rng.randint(1, N), skew=math.exp(rng.uniform(-7, 14)))
+    # the weights actually handed to the draws ("used as sampling weights")
+    for n in (1, 2, 3, 5, 8):
+        for s in SKEWS: yield 'draw_weights', dict(n=n, skew=s)
 
 
 def nontrivial(kind, inp): return inp['n'] >= 2 and inp['skew'] != 1.0
 
 
+def run_draws(n, s):
+    seen = []; real = np.random.choice
+    def rec(a, size=None, replace=True, p=None):
+        if replace is False: seen.append(None if p is None else [float(x) for x in p])          # the preference-list draws (the tie draws use replace=True)
+        return real(a, size, replace=replace, p=p)
+    random.seed(1); np.random.seed(1)
+    np.random.choice = rec
+    try: generator_shared.create_pref_lists_original(3, n, 1, n, 0.0, s)
+    except Exception as ex: return dict(expected='lists', observed='raised %r' % ex, function='create_pref_lists_original', what='raise')
+    finally: np.random.choice = real
+    for w in seen:
+        exp = [1.0] if n == 1 else [(1 + j * (s - 1) / (n - 1)) / (n * (1 + s) / 2) for j in range(n)]
+        if w is None or any(abs(a - b) > 1e-9 * max(b, 1e-300) for a, b in zip(w, exp)):
+            return dict(expected='every draw uses the linear weights for (n, skew)', observed='p = %r' % (w if w is None else w[:4],), function='create_pref_lists_original', what='draw-weights')
+    if not seen: return dict(expected='a weighted draw', observed='no draw with %d weights seen' % n, function='create_pref_lists_original', what='draw-weights')
+    return None
+
+
 def run_case(kind, inp):
     n, s = inp['n'], inp['skew']
+    if kind == 'draw_weights': return run_draws(n, s)
     try:
         d = [float(x) for x in create_linear_distribution(n, s)]
     except Exception as ex:
